@@ -20,7 +20,7 @@ static int cmp_fn(const void *a, const void *b) {
         if (ka >= kb) return ka - kb > 2147483647ULL ? 2147483647 : (int)(ka - kb);
         return kb - ka > 2147483648ULL ? (-2147483647 - 1) : -(int)(kb - ka - 1) - 1;
     }
-    return ka > kb ? 7 : ka < kb ? -3 : 0;      /* deliberately not -1/0/1 */
+    return verif_mag(ka > kb ? 1 : ka < kb ? -1 : 0);      /* deliberately not -1/0/1: magnitude varies call by call */
 }
 
 static void obs_sweep(void) {
